@@ -116,6 +116,9 @@ class Exec(Interp):
                 raise PyRaise(c)
             if inspect.isclass(c) and issubclass(c, BaseException):
                 raise PyRaise(PyExc(c, where="line %s" % node.lineno))
+        if isinstance(v.kind, KRef) and v.kind.cls == "exc":
+            # an exception stored in a variable (its class is not tracked): raised as a generic Exception
+            raise PyRaise(PyExc(Exception, where="line %s (stored exception)" % node.lineno))
         raise Unsupported("raise of %r (line %s)" % (v, node.lineno))
 
     def exec_If(self, st, node):
@@ -487,6 +490,10 @@ class Exec(Interp):
             return n, get
         if k is KConst and isinstance(itv.const, EmptyLit):
             return z3.IntVal(0), (lambda i: NONE)
+        if isinstance(k, KRef):
+            h = self.reg.specfuncs.get("__iter__:" + k.cls)
+            if h is not None:
+                return h(self, st, itv, node)
         raise Unsupported("iteration over %s (line %s)" % (k, getattr(node, "lineno", "?")))
 
     def dict_keyseq(self, st, d: SV) -> SV:
@@ -741,6 +748,8 @@ class Exec(Interp):
                 self.assume(st, self.spec_eval(st, chosen.returns_pred, ctx, env, fi.module, fi))
             for e in chosen.ensures_return:
                 self.assume(st, self.spec_eval(st, e, ctx, env, fi.module, fi))
+        if c.effect is not None and raises is None:
+            c.effect(self, st, env)
         for e in list(chosen.ensures) + list(c.ensures_all):
             self.assume(st, self.spec_eval(st, e, ctx, env, fi.module, fi))
         if not st.feasible():
